@@ -4,7 +4,9 @@ package props
 // entry metadata (written from the EncoderConfig documentation).
 
 import (
+	"encoding/json"
 	"fmt"
+	"io"
 	"strings"
 	"time"
 
@@ -20,6 +22,20 @@ type cfgSpec struct {
 	levelEnc  string // nil nop lower capital lowercolor capitalcolor
 	callerEnc string // nil nop full short
 	nameEnc   string // nil nop full
+	reflEnc   string // default html nohtml (custom NewReflectedEncoder closures sharing one function literal)
+}
+
+// mkReflectedEncoder returns a custom NewReflectedEncoder. All closures come
+// from this one function literal and differ only in captured state (noinline:
+// an inlined copy of the literal would be a different function).
+//
+//go:noinline
+func mkReflectedEncoder(escapeHTML bool) func(io.Writer) zapcore.ReflectedEncoder {
+	return func(w io.Writer) zapcore.ReflectedEncoder {
+		enc := json.NewEncoder(w)
+		enc.SetEscapeHTML(escapeHTML)
+		return enc
+	}
 }
 
 func nopLevelEnc(zapcore.Level, zapcore.PrimitiveArrayEncoder)        {}
@@ -81,6 +97,13 @@ func genCfgSpec(t *rapid.T, o cfgOpts) *cfgSpec {
 		"millis": zapcore.MillisDurationEncoder, "string": zapcore.StringDurationEncoder}[cs.durEnc]
 	cs.callerEnc = rapid.SampledFrom([]string{"nil", "nop", "full", "short", "short"}).Draw(t, "callerEnc")
 	cs.cfg.EncodeCaller = map[string]zapcore.CallerEncoder{"nil": nil, "nop": nopCallerEnc, "full": zapcore.FullCallerEncoder, "short": zapcore.ShortCallerEncoder}[cs.callerEnc]
+	cs.reflEnc = rapid.SampledFrom([]string{"default", "default", "default", "html", "nohtml"}).Draw(t, "reflectedEnc")
+	switch cs.reflEnc {
+	case "html":
+		cs.cfg.NewReflectedEncoder = mkReflectedEncoder(true)
+	case "nohtml":
+		cs.cfg.NewReflectedEncoder = mkReflectedEncoder(false)
+	}
 	cs.nameEnc = rapid.SampledFrom([]string{"nil", "nop", "full"}).Draw(t, "nameEnc")
 	cs.cfg.EncodeName = map[string]zapcore.NameEncoder{"nil": nil, "nop": nopNameEnc, "full": zapcore.FullNameEncoder}[cs.nameEnc]
 	return cs
@@ -117,8 +140,21 @@ func genEntry(t *rapid.T) zapcore.Entry {
 	}
 	if rapid.Bool().Draw(t, "callerDefined") {
 		e.Caller = zapcore.EntryCaller{
-			Defined:  true,
-			File:     rapid.OneOf(rapid.SampledFrom([]string{"/home/u/go/src/pkg/file.go", "file.go", "pkg/file.go", "", "/", "a//b", "C:/x/y/z.go", "/a/b\n\"c/d.go"}), genStr()).Draw(t, "callerFile"),
+			Defined: true,
+			File: rapid.OneOf(rapid.SampledFrom([]string{"/home/u/go/src/pkg/file.go", "file.go", "pkg/file.go", "", "/", "a//b", "C:/x/y/z.go", "/a/b\n\"c/d.go"}), genStr(),
+				// every shape of short path: 0-4 components, with or without a leading slash, empty components
+				rapid.Custom(func(t *rapid.T) string {
+					n := rapid.IntRange(0, 4).Draw(t, "pathComponents")
+					parts := make([]string, n)
+					for i := range parts {
+						parts[i] = rapid.SampledFrom([]string{"app", "main.go", "a", "", ".", "x y", "é"}).Draw(t, "component")
+					}
+					p := strings.Join(parts, "/")
+					if rapid.Bool().Draw(t, "absolute") {
+						p = "/" + p
+					}
+					return p
+				})).Draw(t, "callerFile"),
 			Line:     rapid.OneOf(rapid.IntRange(0, 5000), rapid.Int()).Draw(t, "callerLine"),
 			Function: rapid.OneOf(rapid.SampledFrom([]string{"", "main.main", "pkg.(*T).Method.func1"}), genStr()).Draw(t, "callerFunc"),
 		}
